@@ -107,10 +107,22 @@ def main():
             yvals = yvals + [0]
         elif cfg["dw"] == "narrower":
             yvals = yvals[:-1]
+        yclipped = False
+        try:
+            ysc = scaled(yvals, U, ydt) if yvals else np.zeros(0, dtype=ydt)
+        except OverflowError:
+            # only possible when y has the *other* element type (expect = "either"): the magnitude of the
+            # configuration does not fit that type.  The call is still made (refusal is what the model
+            # predicts); if it is accepted there is no expected value to compare with.
+            if ydt == dt:
+                raise
+            info = np.iinfo(ydt)
+            ysc = np.array([min(max(v * U, info.min), info.max) for v in yvals], dtype=ydt)
+            yclipped = True
         if cfg["dw"] == "same" and not simple:
-            ybuf, y = view1(scaled(yvals, U, ydt), lay["yl"], f, ydt, fill)
+            ybuf, y = view1(ysc, lay["yl"], f, ydt, fill)
         else:
-            y = scaled(yvals, U, ydt) if yvals else np.zeros(0, dtype=ydt)
+            y = ysc
             ybuf = y
         if cfg["xrank"] == 1:
             X = X[0] if r else X.reshape(-1)
@@ -158,7 +170,7 @@ def main():
                     bad = ("raised", raised)
             elif cfg["expect"] == "error":
                 bad = ("no-error", "returned %s" % (np.asarray(res).tolist() if np.size(res) <= 8 else type(res).__name__))
-            else:
+            elif not yclipped:
                 bad = check(np, case, cfg, U, res, out, obuf, lay)
             if bad is None and (xbuf.tobytes() != xb0 or ybuf.tobytes() != yb0):
                 bad = ("input-modified", "")
